@@ -101,12 +101,17 @@ func runR09_6(c *Ctx, r *R) {
 // two of them and forgets the third treats an ordinary race as an unexpected status (closeUser panics on it).
 // Sibling cross-check: all such switches of the two packages agree.
 func init() {
-	register(&Rule{ID: "R06.6", Props: []string{"C06", "C09"}, Floor: 5,
+	register(&Rule{ID: "R06.6", Props: []string{"C06", "C09", "C03"}, Floor: 5,
 		Doc: "teardown status classes: every comparison chain over a status code in mpx/rpc that accepts two of {cancelled, closed, end} accepts all three",
 		Run: runR06_6})
 }
 
-func runR06_6(c *Ctx, r *R) {
+func runR06_6(c *Ctx, outer *R) {
+	// registered for C06, C09 and C03: only the classification inside channel.ReceiveAsync also belongs to C03 (there
+	// the message has already been taken off the queue: treating the lost race as an error drops that message)
+	r := &R{c: c, rule: &Rule{ID: outer.rule.ID, Props: []string{"C06", "C09"}}}
+	rRecv := &R{c: c, rule: &Rule{ID: outer.rule.ID, Props: []string{"C06", "C09", "C03"}}}
+	defer func() { outer.n += r.n + rRecv.n }()
 	sp := c.Pkgs[statusPath]
 	if sp == nil {
 		for _, p := range c.Pkgs {
@@ -185,10 +190,14 @@ func runR06_6(c *Ctx, r *R) {
 						missing = append(missing, name)
 					}
 				}
+				rr := r
+				if fnKey(fn) == "mpx.channel.ReceiveAsync" {
+					rr = rRecv
+				}
 				if len(missing) == 0 {
-					r.OK(key, pos, "accepts cancelled, closed and end alike")
+					rr.OK(key, pos, "accepts cancelled, closed and end alike")
 				} else {
-					r.Bad(key, pos, "this status classification accepts two of the three teardown codes but not %v, unlike its siblings in the package: when that signal wins the race, an ordinary teardown is treated as an unexpected status (a panic in closeUser, an error log or a failed call elsewhere)", missing)
+					rr.Bad(key, pos, "this status classification accepts two of the three teardown codes but not %v, unlike its siblings in the package: when that signal wins the race, an ordinary teardown is treated as an unexpected status (a panic in closeUser, an error log or a failed call elsewhere)", missing)
 				}
 			}
 		}
